@@ -6,6 +6,10 @@ OPS = ["quat_mul", "quat_add", "quat_sub", "quat_dot", "quat_neg", "quat_conj", 
        "from_to", "angle_axis"]
 
 
+OPS_S = ["quat_mul", "quat_add", "quat_sub", "quat_dot", "quat_neg", "quat_conj", "quat_norm2", "quat_muls", "quat_mulv3",
+         "quat_mulv4", "quat_compose", "quat_conv"]
+
+
 def key(rec):
     return "%s/%s" % (rec["op"], rec.get("ty", rec.get("how", rec.get("kind", ""))))
 
@@ -22,8 +26,13 @@ def run(ctx):
     thorough = ctx.tier == "thorough"
     core.law_runs(ctx, "Law_Xform", ["Law_Xform_P"])
     n = 600 if thorough else 40
+    # symbolic lane: quaternion components, vectors and scalars are free symbols - Hamilton product, sums, conjugate, norm,
+    # q*Vec3, q*Vec4, composition (p*q)*v = p*(q*v) and the conversions are compared as polynomials (all inputs at once)
+    core.drive_validate(ctx, "sym", "Trace_Xform", "Trace_Xform_S", "quat-sym", 1, OPS_S, key=key,
+                        extra_args=["--area", "quat"], corrupt_op="quat_mul")
     core.drive_validate(ctx, "quat", "Trace_Xform", "Trace_Xform_F", "quat", n, OPS, key=key, corrupt_op="quat_mul")
-    ctx.assumptions = ["operands are sampled exact rationals; all-input coverage is through the laws on the specification",
+    ctx.assumptions = ["symbolic lane: vek is generic in T and stable Rust has no specialisation, so the polynomial returned on free symbols is the function computed for every element type (parametricity); calls that need a square root or a division by a symbol are not in this lane",
+                       "operands are sampled exact rationals; all-input coverage is through the laws on the specification",
                        "direction pairs are constructed so that every square root in the code under test is rational "
                        "(to = mu * S*S * from with S a rational rotation); other pairs are not explored",
                        "values compared in the prime field Z_46337"]
